@@ -77,8 +77,9 @@ def expected_span(tex_, o, ln):
     return beg, min(end, len(tex_))
 
 
-def check_report(html_text, tex_, matches, context, msgid, cnt):
-    """matches: list of (offset, length, id); -> (key, detail) or None"""
+def check_report(html_text, tex_, matches, context, msgid, cnt, loose=()):
+    """matches: list of (offset, length, id); loose: ids of matches that must be shown exactly once, without a
+    statement about the highlighted characters; -> (key, detail) or None"""
     rep = htmlreport.parse(html_text)
     if rep.bad:
         return 'markup:' + str(rep.bad[0][0]), dict(problems=rep.bad[:3])
@@ -137,7 +138,14 @@ def check_report(html_text, tex_, matches, context, msgid, cnt):
             cnt['matches_in_overlap_list'] = cnt.get('matches_in_overlap_list', 0) + 1
         if len(got) > 1:
             cnt['matches_split_over_lines'] = cnt.get('matches_split_over_lines', 0) + 1
-    extra = set(byid) - {mid for _, _, mid in matches}
+    for mid in loose:
+        got = byid.get(mid)
+        if not got:
+            return 'match:missing', dict(match=mid, kind='positions not in source order')
+        if len({rep.tables_kind.get(t) for _, t, _, _ in got}) != 1:
+            return 'match:twice', dict(match=mid)
+        cnt['matches_with_unordered_positions'] = cnt.get('matches_with_unordered_positions', 0) + 1
+    extra = set(byid) - {mid for _, _, mid in matches} - set(loose)
     if extra:
         return 'match:unknown-highlight', dict(ids=sorted(extra)[:5])
     return None
@@ -229,6 +237,21 @@ class C16(core.Check):
             n = len(tex_)
             pairs = gen_matches(rnd, n)
             charmap = list(range(1, n + 1)) + [n, n]
+            exact = [(o, ln, str(k)) for k, (o, ln) in enumerate(pairs)]
+            loose = []
+            if case['s'] % 4 == 0 and n >= 3:
+                # the text of two neighbouring source pieces comes out in the opposite order (a macro that swaps
+                # its arguments): matches inside one piece are shown as usual, a match across the seam exactly once
+                a, b, c = sorted(rnd.sample(range(n + 1), 3))
+                perm = list(range(a)) + list(range(b, c)) + list(range(a, b)) + list(range(c, n))
+                charmap = [q + 1 for q in perm] + [n, n]
+                exact = []
+                for k, (o, ln) in enumerate(pairs):
+                    if ln >= 1 and o + ln <= n and all(perm[o + i] == perm[o] + i for i in range(ln)):
+                        exact.append((perm[o], ln, str(k)))
+                    else:
+                        loose.append(str(k))
+                cnt['direct_with_swapped_pieces'] = 1
             ms = []
             for k, (o, ln) in enumerate(pairs):
                 hostile = rnd.choice(['', '<i>&"', '</span>', '\n', '"><script>', "'"])
@@ -238,8 +261,7 @@ class C16(core.Check):
                            'rule': {'id': 'R<"' + hostile.strip(), 'subId': '&1'}})
             self.v.cmdline.context = ctx
             title, anchor, body, num = genhtml.generate_html(tex_, charmap, [dict(m) for m in ms], 'f.tex')
-            pr = check_report(body, tex_, [(o, ln, str(k)) for k, (o, ln) in enumerate(pairs)], ctx,
-                              r'MSG#(\d+)', cnt)
+            pr = check_report(body, tex_, exact, ctx, r'MSG#(\d+)', cnt, loose=loose)
             detail = dict(source=tex_[:3000], matches=pairs, context=case['ctx'])
             if num != len(ms):
                 pr = ('count', dict(reported=num))
@@ -350,7 +372,7 @@ class C16(core.Check):
         return {'fam_direct': 3000, 'rows_checked': 10000, 'matches_in_place': 3000, 'matches_in_overlap_list': 500,
                 'matches_split_over_lines': 100, 'whole_file_reports': 300, 'shell_reports': 60,
                 'shell_reports_fully_checked': 30, 'index_pages': 10, 'multi_file_reports_fully_checked': 20,
-                'shellml_reports': 100, 'shellml_own_messages': 300, 'shelltex_repeated_part': 10}
+                'shellml_reports': 100, 'direct_with_swapped_pieces': 500, 'matches_with_unordered_positions': 100, 'shellml_own_messages': 300, 'shelltex_repeated_part': 10}
 
 
 CHECK = C16
